@@ -27,6 +27,7 @@ AllIds(C) == {d.id : d \in LiveDocs(C)}
 Tokens(d, f) == IF Has(d.t, f) THEN d.t[f] ELSE IF Has(d, "k") /\ Has(d.k, f) THEN d.k[f] ELSE <<>>
 Nums(d, f) == IF Has(d.n, f) THEN d.n[f] ELSE <<>>
 Dates(d, f) == IF Has(d.d, f) THEN d.d[f] ELSE <<>>
+Geo(d, f) == IF Has(d, "g") /\ Has(d.g, f) THEN d.g[f] ELSE <<>>
 TermsOf(d, f) == Range(Tokens(d, f))
 PosOf(d, f, v) == {i \in 1..Len(Tokens(d, f)) : Tokens(d, f)[i] = v}
 Ids(D) == {d.id : d \in D}
@@ -116,6 +117,14 @@ Eval(C, q) ==
          Ids({d \in D : \E x \in Range(Dates(d, q.f)) :
                  /\ (~q.haslo \/ q.lo < x \/ (q.ilo /\ x = q.lo))
                  /\ (~q.hashi \/ x < q.hi \/ (q.ihi /\ x = q.hi))})
+    [] q.t = "geobox" ->  \* box = <<left, top, right, bottom>> in half degrees, points in whole degrees (never on an
+                          \* edge); right < left means that the box crosses the date line
+         Ids({d \in D : \E i \in DOMAIN Geo(d, q.f) :
+                 LET x == 2 * Geo(d, q.f)[i][1]
+                     y == 2 * Geo(d, q.f)[i][2]
+                 IN /\ y >= q.box[4] /\ y <= q.box[2]
+                    /\ IF q.box[3] >= q.box[1] THEN x >= q.box[1] /\ x <= q.box[3]
+                       ELSE x >= q.box[1] \/ x <= q.box[3]})
     [] q.t = "bool" ->
          \* must: all; must-not: none; should: at least min (when there is no must
          \* clause at least one should clause has to match anyway); only must-not
